@@ -378,6 +378,20 @@ pub async fn exec_signals(a: &Args) -> Args {
             let (_d, end) = read_all(&mut r, T_CALL).await;
             vec![vec![1, rr], end]
         }
+        // a finish() that was started and abandoned (its future polled once, then dropped) does not
+        // swallow a later reset: the peer still reads reset(code)
+        7 => {
+            let mut s = match conn.open_uni().await { Ok(o) => match o.await { Ok(s) => s, Err(_) => return vec![vec![2]] }, Err(_) => return vec![vec![2]] };
+            let _ = s.write_all(&payload).await;
+            let mut r = match tokio::time::timeout(T_CALL, raw.conn.accept_uni()).await { Ok(Ok(r)) => r, _ => return vec![vec![2]] };
+            {
+                let mut f = Box::pin(s.finish());
+                let _ = std::future::poll_fn(|cx| std::task::Poll::Ready(std::future::Future::poll(f.as_mut(), cx))).await;
+            }
+            let rr = s.reset(vi(code)).is_ok() as u64;
+            let (_d, end) = read_all(&mut r, T_CALL).await;
+            vec![vec![1, rr], end]
+        }
         // the app finishes: the peer reads everything then end-of-stream; finish() succeeds
         5 => {
             let mut s = match conn.open_uni().await { Ok(o) => match o.await { Ok(s) => s, Err(_) => return vec![vec![2]] }, Err(_) => return vec![vec![2]] };
@@ -914,6 +928,9 @@ pub fn generate(rng: &mut Rng, thorough: bool, which: &str) -> Vec<Case> {
                 cs.push(Case::new(641, vec![vec![5, 0, nb as u64]], "finish"));
             }
             cs.push(Case::new(641, vec![vec![6, 0, 0]], "finish-retried-under-loss"));
+            for c in [0u64, 0x123456789abc, (1 << 62) - 1] {
+                cs.push(Case::new(641, vec![vec![7, c, 1_048_576]], "reset-after-abandoned-finish"));
+            }
         }
         "wdgram" => {
             // size contract for session ids whose quarter id sits in another varint class, peer limits
